@@ -17,7 +17,9 @@ RULE = ("requested values over +-3 decades around each documented limit and exac
 ASSUMPTIONS = ["the simulated instrument implements the documented command grammar, a 4 x 2^21-bit pattern memory and IEEE-488.2 definite-length blocks",
                "get_data's result is compared per channel after flattening (the property fixes the bits, not the array layout)",
                "a received record shorter than the pattern may be rejected with BufferError or ValueError",
-               "SYNC records are the unipolar pattern waveform scaled by a positive gain plus a non-negative offset and Gaussian noise of sigma <= 0.2 * gain"]
+               "SYNC records are the unipolar pattern waveform scaled by a positive gain plus a non-negative offset and Gaussian noise of sigma <= 0.2 * gain, "
+               "further capped so that the correlation margin between the true delay and a one-sample offset is at least 8 standard deviations ('moderate noise'; thorough tier, seed 2, had "
+               "flipped delay 0 into l-1 at 2.5 standard deviations for 32 samples per slot — a false alarm of the first version)"]
 MIN_CHECKS = {"scpi.grammar": 1500, "scpi.in_range": 600, "clamp.emitted": 300, "clamp.warned": 300, "memory.roundtrip": 60, "sync.index": 100}
 SHARDS = {"quick": 4}
 
@@ -535,6 +537,12 @@ def w_sync(ctx, rng, i):
     amp = float(rng.uniform(0.2, 3))
     off = float(rng.uniform(0, 0.3)) * amp      # non-negative records (detected voltages): SYNC's own false-positive guard assumes them
     sigma = float(rng.uniform(0, 0.2)) * amp
+    # "moderate" noise: the correlation at the true delay exceeds the one at a one-sample offset by amp * (number of rising or
+    # falling edges); delay 0 and delay l-1 are scored on disjoint windows, whose noise terms are independent with standard
+    # deviation sigma * sqrt(2 * samples at level 1). Keep that margin at 8 standard deviations or more (for 32 samples per slot
+    # this caps sigma near amp/16: a correlator cannot resolve 1/32 of a slot in more noise than that).
+    edges = max(1, min(int(np.sum(np.diff(slots.astype(int)) == 1)), int(np.sum(np.diff(slots.astype(int)) == -1))))
+    sigma = min(sigma, amp * edges / (8.0 * np.sqrt(2.0 * max(1.0, float(w.sum())))))
     variant = i % 2
     ntot = reps * l + int(rng.integers(0, l))
     if variant == 0:      # the repeated waveform, cyclically delayed by d
